@@ -241,6 +241,63 @@ func c20(r *engine.Report, p *engine.Program) {
 		r.Check("R2-decode-errors", "ReceptorNames: only tag-0 otherNames with the receptor OID are collected", rn.Pos(), ok,
 			"the append is unreachable unless value.Tag == 0 and on.ID.Equal(OIDReceptorName)", "names can be collected from other GeneralName kinds or other OIDs")
 	}
+	// R2b what is returned as a name is what encoding/asn1 decoded into a Go string (UTF8String,
+	// validated) — never raw content octets reinterpreted as a string
+	{
+		var bad []string
+		n := 0
+		for _, b := range rn.Blocks {
+			for _, in := range b.Instrs {
+				c, isC := in.(*ssa.Call)
+				if !isC {
+					continue
+				}
+				bi, isB := c.Common().Value.(*ssa.Builtin)
+				if !isB || bi.Name() != "append" || c.Type().String() != "[]string" {
+					continue
+				}
+				// the appended element(s): stores into the varargs array
+				va := c.Common().Args[1]
+				if sl, isS := va.(*ssa.Slice); isS {
+					if al, isAl := sl.X.(*ssa.Alloc); isAl {
+						for _, rr := range *al.Referrers() {
+							ia, isIA := rr.(*ssa.IndexAddr)
+							if !isIA {
+								continue
+							}
+							for _, r2 := range *ia.Referrers() {
+								st, isSt := r2.(*ssa.Store)
+								if !isSt {
+									continue
+								}
+								n++
+								ld, isLd := st.Val.(*ssa.UnOp)
+								okElem := false
+								if isLd && ld.Op == token.MUL {
+									if cell, isCell := ld.X.(*ssa.Alloc); isCell && cell.Type().String() == "*string" {
+										// the cell is a decode target of asn1.Unmarshal*
+										for _, ci := range callsTo(rn, "encoding/asn1.Unmarshal", "encoding/asn1.UnmarshalWithParams") {
+											for _, a := range ci.Common().Args {
+												if mi, isMI := a.(*ssa.MakeInterface); isMI && mi.X == ssa.Value(cell) {
+													okElem = true
+												}
+											}
+										}
+									}
+								}
+								if !okElem {
+									bad = append(bad, p.Pos(st.Pos()))
+								}
+							}
+						}
+					}
+				}
+			}
+		}
+		r.Check("R2-decode-errors", "ReceptorNames: a returned name is the Go string encoding/asn1 decoded", rn.Pos(), len(bad) == 0 && n > 0,
+			"every element appended to the result is a string variable filled by asn1.Unmarshal (UTF8String, validated by the decoder)",
+			fmt.Sprintf("a value appended to the result at %v is not a string decoded by encoding/asn1 (e.g. raw content octets of any string type): a certificate reads back as a different name than the one encoded", bad))
+	}
 	// R3 encoder/decoder agreement
 	{
 		encOID := false
